@@ -291,7 +291,7 @@ func referenceLine(l []byte, bh *Header) error {
 	if dup {
 		if er := bh.refs[dupID]; equalRefs(er, rf) {
 			return nil
-		} else if !equalRefs(er, &Reference{id: er.id, name: er.name, lRef: er.lRef}) {
+		} else if rf.lRef != er.lRef || !equalRefs(er, &Reference{id: er.id, name: er.name, lRef: er.lRef}) {
 			return errDupReference
 		}
 		old := bh.refs[dupID]
